@@ -339,7 +339,11 @@ func main() {
 				return l1Impl{l1.NewChain(conc, cfg)}
 			}
 		case "l2":
-			mk = func() det.Impl { return l2Impl{l2.NewChain(l1.NewConc(*seed, parseScale(*scale)), l2Cfg(g.Meta))} }
+			mk = func() det.Impl {
+				ch := l2.NewChain(l1.NewConc(*seed, parseScale(*scale)), l2Cfg(g.Meta))
+				ch.NoGasProbe = true
+				return l2Impl{ch}
+			}
 		case "val":
 			mk = func() det.Impl { return newValImpl(*seed, *scale, g.Meta).(valImpl) }
 		case "oracle":
